@@ -24,10 +24,10 @@ Next == \/ /\ l = 0 /\ sh = 0
            /\ sh' = sh
 
 AllRules == {"C02.NoPanic", "C02.Json", "C02.Total", "C02.TotalHM", "C02.Now", "C02.Pwt",
-             "C12.NoPanic", "C12.Rows", "C12.Sums", "C12.Today", "C12.Pwt",
+             "C12.NoPanic", "C12.Rows", "C12.Sums", "C12.Today", "C12.TodayNow", "C12.Pwt",
              "C13.NoPanic", "C13.Select", "C13.Sort",
              "C14.NoPanic", "C14.JsonTags", "C14.Totals",
-             "C17.Now",
+             "C17.Now", "C17.TodayNow",
              "C18.NoPanic", "C18.Strip", "C18.Plain", "C18.Widths",
              "C20.NoPanic", "C20.WellFormed", "C20.Record", "C20.Arithmetic"}
 RuleNames == {r \in AllRules : \E p \in Prefixes : StartsWith(r, p)}
@@ -196,6 +196,9 @@ Holds(r, ev, PD) ==
             \A i \in 1..Len(o.runs) : StartsWith(o.runs[i].id, "report:") /\ R # <<>> /\ o.runs[i].report.has_grand =>
                 o.runs[i].report.grand[1] = RunById(o, "total:plain").total.total
       [] r = "C12.Today" -> live /\ HasRun(o, "today") => TodayOK(RunById(o, "today"), R, now)
+      [] r \in {"C12.TodayNow", "C17.TodayNow"} -> live /\ HasRun(o, "today:now") =>
+            LET cl == CloseAll(R, now) IN
+            IF cl.ok THEN TodayOK(RunById(o, "today:now"), cl.recs, now) ELSE RunById(o, "today:now").code # 0
       [] r = "C13.Select" -> live =>
             \A i \in 1..Len(o.runs) :
                 LET run == o.runs[i] IN
